@@ -8,6 +8,7 @@ import (
 	"go/token"
 	"go/types"
 	"golang.org/x/tools/go/ssa"
+	"math"
 	"os"
 	"sort"
 	"strings"
@@ -1164,31 +1165,56 @@ func c05Message(w *World, r *Report) {
 type lexLoop struct {
 	pos      token.Pos
 	consumes bool
-	round    ISet
-	decided  bool
+	rounds   []ISet // per rune read in the loop (where it can be read off): the values it has when the loop goes round again
 }
 
-// lexLoops reads the loops of f that are not driven by a range clause.
+// leavesAt: some rune read in the loop never has value v when the loop goes round.
+func (l lexLoop) leavesAt(v int64) bool {
+	for _, r := range l.rounds {
+		if !r.contains(v) {
+			return true
+		}
+	}
+	return false
+}
+
+// roundsExactlyFor: the loop goes round exactly for the values in set of some rune it reads.
+func (l lexLoop) roundsExactlyFor(set ISet) bool {
+	for _, r := range l.rounds {
+		if r.equal(set) {
+			return true
+		}
+	}
+	return false
+}
+
+// lexLoops reads the loops of f that are not driven by a range clause (XPath lexers).
 func lexLoops(w *World, f *ssa.Function) []lexLoop {
 	nextM := w.SSAFunc(w.Method("xpath", "CommonLex", "Next"))
 	nextF := w.SSAFunc(w.Func("xpath", "next"))
 	// the rune a call reads: x.Next() (method or through the lexer interface), or the first result of next(line)
-	runeOf := func(v ssa.Value) *ssa.Call {
+	runeOf := func(v ssa.Value) (*ssa.Call, bool) {
 		if ex, ok := v.(*ssa.Extract); ok && ex.Index == 0 {
 			if c, ok := ex.Tuple.(*ssa.Call); ok && c.Call.StaticCallee() == nextF {
-				return c
+				return c, true
 			}
-			return nil
+			return nil, false
 		}
 		c, ok := v.(*ssa.Call)
 		if !ok {
-			return nil
+			return nil, false
 		}
 		if c.Call.StaticCallee() == nextM || (c.Call.IsInvoke() && nm(c.Call.Method) == "Next" && c.Call.Signature().Results().Len() == 1 && c.Call.Signature().Params().Len() == 0) {
-			return c
+			return c, true
 		}
-		return nil
+		return nil, false
 	}
+	return runeLoops(w, f, nil, runeOf)
+}
+
+// runeLoops: runeOf tells whether a value is a rune read from the input, by
+// which call, and whether that call consumes it (a look-ahead does not).
+func runeLoops(w *World, f *ssa.Function, ctx *symCtx, runeOf func(v ssa.Value) (*ssa.Call, bool)) []lexLoop {
 	var out []lexLoop
 	sym := NewSym(w)
 	sym.Expand = true
@@ -1215,9 +1241,11 @@ func lexLoops(w *World, f *ssa.Function) []lexLoop {
 		for b := range body {
 			for _, in := range b.Instrs {
 				if v, ok := in.(ssa.Value); ok {
-					if rc := runeOf(v); rc != nil {
+					if rc, consumes := runeOf(v); rc != nil {
 						cands = append(cands, v)
-						readers = append(readers, rc.Block())
+						if consumes {
+							readers = append(readers, rc.Block())
+						}
 					}
 				}
 			}
@@ -1229,7 +1257,7 @@ func lexLoops(w *World, f *ssa.Function) []lexLoop {
 			}
 			fed := len(l.Latches) > 0
 			for _, lt := range l.Latches {
-				if rc := runeOf(phiEdge(phi, lt)); rc == nil || !body[rc.Block()] {
+				if rc, _ := runeOf(phiEdge(phi, lt)); rc == nil || !body[rc.Block()] {
 					fed = false
 				}
 			}
@@ -1253,20 +1281,50 @@ func lexLoops(w *World, f *ssa.Function) []lexLoop {
 			var round ISet
 			all := true
 			for _, lt := range l.Latches {
-				vals, decided := pcValuesWhen(sym.RoundCond(l.Header, lt, nil), sym.Key(v, nil))
+				rc := sym.RoundCond(l.Header, lt, ctx)
+				// strings.IndexRune(valid, r) >= 0 never holds for a rune that is not a code point (the end marker)
+				rc = indexRuneHint(sym, rc, v, ctx)
+				vals, decided := pcValuesWhen(rc, sym.Key(v, ctx))
 				if !decided {
 					all = false
 					break
 				}
 				round = round.union(vals)
 			}
-			if all && (!ll.decided || len(round.minus(ll.round)) == 0) {
-				ll.round, ll.decided = round, true
+			if all {
+				ll.rounds = append(ll.rounds, round)
 			}
 		}
 		out = append(out, ll)
 	}
 	return out
+}
+
+// indexRuneHint adds what is known about strings.IndexRune(s, v) ≥ 0: a hit
+// needs v to be a code point (v ≥ 0), so the test fails for the end marker.
+func indexRuneHint(s *Sym, f *pcF, v ssa.Value, ctx *symCtx) *pcF {
+	for _, a := range f.atoms() {
+		bo, ok := a.v.(*ssa.BinOp)
+		if !ok || a.subj == "" {
+			continue
+		}
+		for _, side := range []ssa.Value{bo.X, bo.Y} {
+			c, ok := side.(*ssa.Call)
+			if !ok || c.Call.StaticCallee() == nil || c.Call.StaticCallee().String() != "strings.IndexRune" || len(c.Call.Args) != 2 || c.Call.Args[1] != v {
+				continue
+			}
+			valid := s.intAtom(s.Key(v, ctx), ISet{{0, math.MaxInt64}}, false, a.v, ctx)
+			neg := ISet{{math.MinInt64, -1}}
+			at := &pcF{k: pcAtomK, atom: a}
+			switch {
+			case len(a.set.intersect(neg)) == 0: // the atom holds only on a hit
+				f = pcAndF(f, pcOrF(pcNotF(at), valid))
+			case len(neg.minus(a.set)) == 0: // the atom fails only on a hit
+				f = pcAndF(f, pcOrF(at, valid))
+			}
+		}
+	}
+	return f
 }
 
 func c05LexerLoops(w *World, r *Report) {
@@ -1298,7 +1356,7 @@ func c05LexerLoops(w *World, r *Report) {
 				for _, ll := range lexLoops(w, f) {
 					n++
 					c := fmt.Sprintf("%s.%s loop #%d", key, funcDeclName(fd), n)
-					exits := ll.decided && !ll.round.contains(eof)
+					exits := ll.leavesAt(eof)
 					r.Check(ll.consumes && exits, "R05.7", c, ll.pos, "reads a rune per iteration; the loop goes round only when the rune read is not EOF",
 						fmt.Sprintf("loop may not terminate: reads a rune per iteration=%v, leaves at EOF=%v", ll.consumes, exits))
 				}
